@@ -48,7 +48,9 @@ def check(ctx: Ctx):
 
     sub = Ctx(ctx.model, ctx.prop, ctx.tier)
     col.check_pairwise(sub)
-    ctx.findings.extend(f for f in sub.findings if f.rule == "METRIC")
+    # … and the surface distance it compares (centre distance minus *both* radii, symmetric): a wrong entry lets the
+    # duplicate filter drop a genuine small droplet next to a large one
+    ctx.findings.extend(f for f in sub.findings if f.rule in ("METRIC", "SURFACE", "SYMM"))
     ctx.functions |= sub.functions
     table = c12.formulas(ctx)
     c12.identities(ctx, table)
@@ -63,6 +65,8 @@ def check(ctx: Ctx):
     ctx.expect("SHARP", 2)
     ctx.expect("METRIC", 4)
     ctx.expect("SUMCLIP", 3)
+    ctx.expect("SURFACE", 1)
+    ctx.expect("SYMM", 1)
     ctx.expect("FORMULA", 24)
     ctx.trust("scipy.ndimage.center_of_mass returns array-index positions (cell i ↦ i); slice .start/.stop are cell-boundary coordinates",
               "GridBase.transform(x, src, dst) / normalize_point frames; 'cell' coordinates have cell centres at i + 0.5",
